@@ -1,0 +1,27 @@
+//go:build verif
+
+package modules
+
+import (
+	"sync/atomic"
+	"time"
+)
+
+// Verification accessors for property C06 (build tag "verif" only); read-only except the stop timeout.
+
+// VerifC06GlobalMicroTasks returns the global microtask counter (it is not part of GetStatus).
+func VerifC06GlobalMicroTasks() int {
+	return int(atomic.LoadInt32(microTasks))
+}
+
+// VerifC06Executing returns the task's executing flag.
+func (t *Task) VerifC06Executing() bool {
+	t.lock.Lock()
+	defer t.lock.Unlock()
+	return t.executing
+}
+
+// VerifC06SetStopTimeout sets how long a stopping module waits for its control function, workers and tasks.
+func VerifC06SetStopTimeout(d time.Duration) {
+	moduleStopTimeout = d
+}
